@@ -41,6 +41,14 @@ def check(prop, repo_root, tier, seed, replay=None, evidence_path=None, quiet=Fa
     ctx, mod = run_property(prop, repo_root, tier)
     extra = {}
     viol0, _k, _t = report.classify(prop, ctx.instances)
+    if tier == "thorough":
+        from . import generic
+        notes = generic.run_all(ctx.prog, prop)
+        extra["cross_reference_scans"] = {"modules": sorted(generic.anchor_modules(prop)), "hits": notes,
+                                          "explanation": "generic definite-assignment / read-never-stored / arity scans over the property's "
+                                                         "anchor files; informational only, never a violation"}
+        for n in notes:
+            ctx.note("XREF." + n["scan"], n["where"], n["loc"], n["what"])
     if tier == "thorough" and viol0:
         extra["selftest"] = "skipped: the tree under analysis already violates the property, variant expectations do not apply"
     elif tier == "thorough":
